@@ -17,12 +17,16 @@ type FamilyNode struct {
 	// were cached. The nodeCache is replaced whenever any node is added or
 	// removed, which is also when the husband and wife need to be found again.
 	cachedAt *sync.Map
+
+	// cacheMutex protects everything that is cached above. Families are used
+	// by several goroutines when individuals are compared with Jobs > 1.
+	cacheMutex sync.Mutex
 }
 
 func newFamilyNode(document *Document, pointer string, children ...Node) *FamilyNode {
 	return &FamilyNode{
 		newSimpleDocumentNode(document, TagFamily, "", pointer, children...),
-		false, false, nil, nil, nil,
+		false, false, nil, nil, nil, sync.Mutex{},
 	}
 }
 
@@ -40,6 +44,9 @@ func (node *FamilyNode) Husband() (husband *HusbandNode) {
 	if node == nil {
 		return nil
 	}
+
+	node.cacheMutex.Lock()
+	defer node.cacheMutex.Unlock()
 
 	node.checkCache()
 
@@ -66,6 +73,9 @@ func (node *FamilyNode) Wife() (wife *WifeNode) {
 	if node == nil {
 		return nil
 	}
+
+	node.cacheMutex.Lock()
+	defer node.cacheMutex.Unlock()
 
 	node.checkCache()
 
